@@ -4,6 +4,7 @@ package c05
 import (
 	"errors"
 	"fmt"
+	"github.com/ajitpratap0/GoSQLX/pkg/sql/tokenizer"
 	"regexp"
 	"strings"
 
@@ -562,6 +563,41 @@ func enumerate(e *common.Enum) {
 		for _, t := range s.Toks {
 			if strings.Contains(t.S, "[") {
 				hasBracket = true
+			}
+		}
+		// positions do not depend on what the tokenizer instance converted before: the statement behind each of nine
+		// leading-blank prefixes, on an instance primed with each of four earlier inputs (ending on line 1, 2, 3 and
+		// with an error on line 2), against a new instance
+		for layout := 0; layout < sqlgen.NLayouts; layout++ {
+			body := sqlgen.Render(s.Toks, layout)
+			for pi, prefix := range []string{"", "\n", "\n        ", "\n" + strings.Repeat(" ", 20), "\n\n        ", "\n\n" + strings.Repeat(" ", 30), "\n\n\n     ", "\n\t\t", "    \n  "} {
+				text := prefix + body
+				key := fmt.Sprintf("R|L%d|%d|%s", layout, pi, nat)
+				e.Do(key, func(c *common.Ctx) {
+					c.Input(text)
+					fresh := lexgen.Tokenize(text)
+					for qi, primer := range []string{"SELECT a FROM t", "SELECT a\nFROM t", "SELECT a,\n  b\n\nFROM t -- c", "SELECT a\n  FROM 'open"} {
+						tk, err := tokenizer.New()
+						if err != nil {
+							return
+						}
+						_, _ = tk.Tokenize([]byte(primer))
+						toks, err := tk.Tokenize([]byte(text))
+						if (err != nil) != (fresh.Err != nil) || len(toks) != len(fresh.Toks) {
+							c.Fail("pos:reused-instance:outcome", fmt.Sprintf("after primer %d the same text gives %d tokens / error %v, a new tokenizer %d tokens / error %v", qi, len(toks), err, len(fresh.Toks), fresh.Err))
+							return
+						}
+						for i := range toks {
+							if toks[i].Start != fresh.Toks[i].Start || toks[i].End != fresh.Toks[i].End {
+								c.Fail("pos:reused-instance", fmt.Sprintf("token %d (%q) is at %s-%s on a tokenizer that converted %q before, at %s-%s on a new one", i, toks[i].Token.Value,
+									locStr(toks[i].Start), locStr(toks[i].End), primer, locStr(fresh.Toks[i].Start), locStr(fresh.Toks[i].End)))
+								return
+							}
+						}
+					}
+					c.Outcome("reused-instance-positions")
+					c.NonTrivial()
+				})
 			}
 		}
 		for layout := 0; layout < sqlgen.NLayouts; layout++ {
